@@ -146,6 +146,10 @@ def shapes(tier, seed):
     vocab = S.leaf_vocabulary("x")
     for leaf in vocab:
         out.append(dict(cond=leaf, n=n, H=H))
+    for leaf in (["pf2", "x", 1], ["PC2", "x", 0]):
+        out.append(dict(cond=["not", leaf], n=n, H=H))
+        out.append(dict(cond=["and", leaf, core[0]], n=n, H=H))
+        out.append(dict(cond=["or", core[1], leaf], n=n, H=H))
     for leaf in core[:4]:
         out.append(dict(cond=["not", leaf], n=n, H=H))
         out.append(dict(cond=leaf, n=n, H=H, spelling="typed"))
